@@ -120,6 +120,8 @@ def get_attribute(ctx, obj, name):
         return ListMethod(obj, name)
     if isinstance(obj, tuple) and name in ('index', 'count'):
         return ListMethod(obj, name)
+    if isinstance(obj, (tuple, list)) and name == '__getitem__':
+        return lambda ctx, i: ops.getitem(ctx, obj, i)
     if isinstance(obj, (set,)) and name in ('add', 'discard', 'remove', 'update', 'copy'):
         return SetMethod(obj, name)
     if isinstance(obj, int) and not isinstance(obj, bool) and name == '__index__':
@@ -138,6 +140,12 @@ def get_attribute(ctx, obj, name):
             ctx.dropped.add('str.' + name)
 
             def fmt(ctx, *a, **k):
+                if name == 'join' and len(a) == 1 and (isinstance(a[0], (tuple, list)) or hasattr(a[0], 'sym_iterate')):
+                    from .small import IdxStr
+                    items = ops.iterate(ctx, a[0])
+                    if any(isinstance(x, Sym) and IdxStr.chars_of(x) is not None for x in items):
+                        return IdxStr.join(ctx, obj, items)  # strings of symbolic characters: exact concatenation
+                    return SOpaque('str')
                 hook = getattr(ctx, 'format_hook', None)
                 if hook is not None and name == 'format':
                     return hook(obj, a, k)
